@@ -265,6 +265,15 @@ def judge(res, steps):
                 viol.append(("C17:guard-clobbered", "bytes behind a user-allocator block were overwritten", l.strip()))
             elif l.startswith("Q "):
                 viol.append(("C17:write-after-free", "a freed user-allocator block was written", l.strip()))
+            elif l.startswith("D "):
+                w = l.split()
+                if w[1] != "0":
+                    viol.append(("C17:freed-block-still-referenced",
+                                 f"an lref data item still points to label insn {w[1]} (label #{w[2]} of the item) which the library has "
+                                 "already released through the user allocator; interpreter/generator read it afterwards (use after free)", l.strip()))
+                else:
+                    viol.append(("C17:lref-value-wrong", f"loaded lref values p{w[3]}/q{w[3]} do not add up to the expected constant "
+                                 "(a label address was computed from released memory)", l.strip()))
     return viol, stats, out
 
 
@@ -276,13 +285,25 @@ REJECT = {5: "unresolved-import", 6: "c2m-compile-error", 7: "mir-error", -99: "
 def run_history(h):
     """h = {"steps": [...], "kind": ...} -> result dict"""
     tag = hashlib.sha1(" ".join(h["steps"]).encode()).hexdigest()[:12] + f"_{next(_tagno)}"   # unique: equal histories may run concurrently
-    res = run_harness(h["steps"], tag, timeout=60 if QUICK else 180)
+    steps = h["steps"]
+    tmpf = []
+    for name, content in (h.get("files") or {}).items():       # inputs generated for this history
+        fp = os.path.join(WORK, tag + "_" + name)
+        with open(fp, "w") as f:
+            f.write(content)
+        tmpf.append(fp)
+        steps = [x.replace("$WORK/" + name, fp) for x in steps]
+    res = run_harness(steps, tag, timeout=60 if QUICK else 180)
     r = {"h": h, "rc": res["rc"], "stderr": res["stderr"], "viol": [], "stats": {}, "status": "ok"}
     if res["rc"] in REJECT:
         r["status"] = "rejected:" + REJECT[res["rc"]]
     elif res["rc"] == 9:
         r["status"] = "fault"
         r["viol"].append(("C17:code-write-without-access", "store to a code page that was not write-enabled (SIGSEGV under the checking code allocator)", res["stderr"][-300:]))
+    elif res["rc"] == 10:
+        r["status"] = "fault-poison"
+        r["viol"].append(("C17:use-after-free", "the library dereferenced a pointer it read from a block it had already freed "
+                          "(0xDD poison of the checking allocator; general protection fault)", res["stderr"][-300:]))
     elif res["rc"] == 2:
         r["status"] = "harness-abort"
         r["viol"].append(("C17:allocator-request-unservable", "the checking allocator could not serve a request of the library: " + res["stderr"][-200:], res["stderr"][-300:]))
@@ -303,7 +324,7 @@ def run_history(h):
                 r["fin"] = "\nF\n" in txt
             except OSError:
                 pass
-    for p in (res["trace"], res["trace"] + ".leaks"):
+    for p in [res["trace"], res["trace"] + ".leaks"] + tmpf:
         try:
             os.remove(p)
         except OSError:
@@ -523,8 +544,15 @@ def gen_code_ops(rng, n):
                 ops.append(f"publishat {1 + rng.below(sz + 1) if rng.chance(4, 5) else sz + 1 + rng.below(5000)} {0 if rng.chance(5, 6) else 1} 0")
         elif r < 75:
             ops.append(f"change {rng.below(1000)} {rng.below(100000)} {rng.choice([0, 1, 4, 6, 8, rng.below(64), rng.below(9000)])}")
-        else:
+        elif r < 90:
             ops.append(f"update {rng.below(1000)} {rng.below(12)} {rng.below(1000000)}")
+        else:
+            # a relocation that starts exactly at / straddles a page boundary, unaligned base
+            ops.append(f"updpb {rng.below(1000)} {rng.below(8)} {rng.below(64)}")
+    if not any(o.startswith("publish") and int(o.split()[1]) > 9000 for o in ops):
+        ops.insert(0, "publish 12000 0 0")
+    ops.append(f"updpb {rng.below(1000)} {rng.below(8)} {8 * rng.below(8)}")      # exactly at the boundary
+    ops.append(f"updpb {rng.below(1000)} {rng.below(8)} {1 + rng.below(7)}")      # straddling it
     return ops
 
 
@@ -638,7 +666,7 @@ def tail_steps(rng, gen, c2m):
 
 
 def gen_history(rng, mirs, cs, kind=None):
-    kind = kind or rng.choice(["mir", "mir", "c", "c", "c", "api", "api", "cmisc", "cerr"])
+    kind = kind or rng.choice(["mir", "mir", "c", "c", "c", "api", "api", "cmisc", "cerr", "lrefmod"])
     iface = rng.choice(IFACES)
     level = rng.below(4)
     link = f"link:{iface}@{level}"
@@ -691,6 +719,18 @@ def gen_history(rng, mirs, cs, kind=None):
         if opt == "S" and rng.chance(1, 2):
             s.append("output")
         return {"kind": kind, "input": os.path.relpath(f, REPO) + "@" + opt, "iface": "-", "level": 0, "steps": s + tail_steps(rng, False, True)}
+    if kind == "lrefmod":
+        # -O2/-O3 with labels referenced only by lref data trip get_label_disp on the clean tree (C01's business)
+        iface = rng.choice(["interp", "gen", "lazy"])
+        level = rng.below(2)
+        s += ["scan:$WORK/lref.mir"]
+        if rng.chance(1, 3):
+            s.append("output")
+        s += ["load", f"link:{iface}@{level}", "lrefcheck", "run:f@4", "lrefcheck:v"]     # values exist only once the function has been prepared/generated
+        if iface != "interp" and rng.chance(1, 3):
+            s.append(f"genall:{rng.below(2)}")
+        return {"kind": kind, "input": "generated lref module", "iface": iface, "level": level,
+                "files": {"lref.mir": gen_lref_module(rng)}, "steps": s + tail_steps(rng, iface != "interp", False)}
     if kind == "cerr":
         # a translation unit with errors (c2mir_compile returns 0, no MIR error is raised), then a good one
         e = os.path.join(VERIF, "corpus", "C17", rng.choice(["err_syntax.c", "err_semantic.c", "err_preproc.c"]))
@@ -716,10 +756,52 @@ def gen_history(rng, mirs, cs, kind=None):
     return {"kind": "api", "input": f"api:{seed}", "iface": iface, "level": level, "steps": s + tail_steps(rng, gen, False)}
 
 
+def gen_lref_module(rng):
+    """textual module: one function with labels, and lref data items of every shape — one label / two
+    labels, displacement, labels that are branch targets and labels referenced by nothing but an lref
+    (as first or as *second* label only).  Items p<k>_<sum> / q<k> are built so that their values add up to
+    <sum> whatever the code addresses are: `p: lref A, X, d1` and `q: lref X', A, d2` where X' is a label
+    immediately before X (same address); X is then referenced only as a second label."""
+    nm = lambda v: f"m{-v}" if v < 0 else str(v)        # names cannot contain '-'
+    nl = 3 + rng.below(4)
+    body, labels = [], []
+    for i in range(nl):
+        labels.append(f"l{i}")
+        body.append(f"l{i}:")
+        for _ in range(1 + rng.below(3)):
+            body.append(rng.choice(["  add r, r, 1", "  mul r, r, 3", "  sub r, r, 2", "  xor r, r, x"]))
+    # twin labels (same address), the second one referenced only as an lref's second label
+    ntw = 1 + rng.below(2)
+    twins = []
+    for t in range(ntw):
+        body += [f"t{t}a:", f"t{t}b:", "  add r, r, 1"]
+        twins.append((f"t{t}a", f"t{t}b"))
+    used = [l for l in labels[1:] if rng.chance(1, 3)]
+    pre = ["  mov r, x"] + [f"  bgt {l}, x, {1000 + i}" for i, l in enumerate(used)]
+    items, k = [], 0
+    for (ta, tb) in twins:
+        a = rng.choice(labels)
+        d1, d2 = rng.choice([0, 0, 8, -16, 1000]), rng.choice([0, 0, 4, -24])
+        items.append(f"p{k}_{nm(d1 + d2)}: lref {a}, {tb}" + (f", {d1}" if d1 else ""))
+        items.append(f"q{k}: lref {ta}, {a}" + (f", {d2}" if d2 else ""))
+        k += 1
+    for _ in range(rng.below(3)):
+        a, b = rng.choice(labels), rng.choice(labels)
+        d1, d2 = rng.choice([0, 8, -8]), rng.choice([0, 16])
+        items.append(f"p{k}_{nm(d1 + d2)}: lref {a}, {b}" + (f", {d1}" if d1 else ""))
+        items.append(f"q{k}: lref {b}, {a}" + (f", {d2}" if d2 else ""))
+        k += 1
+    for i in range(1 + rng.below(3)):
+        d = rng.choice([0, 0, 8, 4096])
+        items.append((f"s{i}: " if rng.chance(2, 3) else "") + f"lref {rng.choice(labels)}" + (f", {d}" if d else ""))
+    txt = ["ml: module", "export f", "f: func i64, i64:x", "  local i64:r"] + pre + body + ["  ret r", "  endfunc"] + items + ["  endmodule", ""]
+    return "\n".join(txt)
+
+
 def report_history(r, sig, what, detail):
     h = r["h"]
     finding(sig, what, {"stage": "tie", "theorem_or_correspondence": "ledger monitor over an API history",
-                        "input": {"steps": [x.replace(REPO, "$REPO") for x in h["steps"]]},
+                        "input": {"steps": [x.replace(REPO, "$REPO") for x in h["steps"]], **({"files": h["files"]} if h.get("files") else {})},
                         "impl": detail, "spec_verdict": what,
                         "how_to_rerun": f"VERIF_REPO={REPO} ./check C17 --replay <this file>   (or: {steps_cmd(h['steps'])})"})
 
@@ -737,7 +819,8 @@ if ck.replay:
     if EXE is None:
         ck.finish()
     if isinstance(inp, dict) and "steps" in inp:
-        h = {"kind": "replay", "steps": [x.replace("$REPO", REPO).replace("$VERIF", VERIF) for x in inp["steps"]]}
+        h = {"kind": "replay", "steps": [x.replace("$REPO", REPO).replace("$VERIF", VERIF) for x in inp["steps"]],
+             "files": inp.get("files")}
         r = run_history(h)
         ck.log(f"replay: status={r['status']} stats={r['stats']}")
         for sig, what, det in r["viol"]:
@@ -777,7 +860,8 @@ if EXE is not None and os.path.exists(DRV):
     ck.cov["corpus_replayed"] = len(corpus)
     for c in corpus:
         if "steps" in c:
-            r = run_history({"kind": "corpus", "steps": [x.replace("$REPO", REPO).replace("$VERIF", VERIF) for x in c["steps"]], "input": c["file"]})
+            r = run_history({"kind": "corpus", "steps": [x.replace("$REPO", REPO).replace("$VERIF", VERIF) for x in c["steps"]],
+                             "input": c["file"], "files": c.get("files")})
             n_eval += 1
             for sig, what, det in r["viol"]:
                 report_history(r, sig, what, det)
@@ -854,6 +938,8 @@ if EXE is not None and os.path.exists(DRV):
                 hs[-1]["iface"], hs[-1]["level"] = iface, level
     hs.append({"kind": "lref", "input": "api:2", "iface": "-", "level": 0,
                "steps": ["init", "api:2", "write", "finish", "init", "readbuf", "output", "finish", "fin"]})
+    for _ in range(6 if QUICK else 40):
+        hs.append(gen_history(ck.rng, mirs, cs, "lrefmod"))
     while len(hs) < n_hist:
         hs.append(gen_history(ck.rng, mirs, cs))
     results = run_histories(hh + hs)
@@ -869,7 +955,8 @@ if EXE is not None and os.path.exists(DRV):
         for k, v in c.items():
             dist["events"][k] += v
         if r["status"] == "ok" and r.get("fin") and c.get("r", 0) > 0 and (c.get("W", 0) > 0 or h["kind"] == "htab"):
-            key = (h["kind"], h.get("input"), h.get("iface"), h.get("level"), tuple(x.split(":")[0] for x in h["steps"]))
+            key = (h["kind"], h.get("input"), h.get("iface"), h.get("level"), tuple(x.split(":")[0] for x in h["steps"]),
+                   hashlib.sha1(json.dumps(h.get("files") or {}, sort_keys=True).encode()).hexdigest())
             if key not in distinct:
                 distinct.add(key)
                 n_nontriv += 1
